@@ -12,6 +12,7 @@ import Quanto.Spec.C05
 import Quanto.Linear
 import Quanto.Calib
 import Quanto.ModuleWire
+import Quanto.Flat
 import Quanto.Serial
 open Quanto
 
@@ -287,6 +288,19 @@ def handle (toks : List String) : String :=
       let (m, _) := parseMod tree.toList
       let f : Option (List Nat) := if filt == "none" then none else some (parseNatList filt)
       showMod (quantizeTree ⟨f, qtOfName? w, qtOfName? a⟩ m)
+  -- C08: the loop of quantize() as written (named_modules + set_module_by_name):
+  --   result tree | dotted names in iteration order | identities in iteration order | namesOk
+  | ["flat08", tree, filt, w, a] =>
+      let (m, _) := parseMod tree.toList
+      let f : Option (List Nat) := if filt == "none" then none else some (parseNatList filt)
+      let ids := m.named.map fun pm => match pm.2 with | .leaf i _ _ => i | .node i _ _ => i
+      showMod (quantizeFlat ⟨f, qtOfName? w, qtOfName? a⟩ m) ++ " " ++ ";".intercalate m.dottedNames
+        ++ " " ++ ",".intercalate (ids.map toString) ++ " " ++ toString m.namesOk
+  -- C08: set_module_by_name(model, dotted name, replacement)
+  | ["setat08", tree, name, repl] =>
+      let (m, _) := parseMod tree.toList
+      let (x, _) := parseMod repl.toList
+      showMod (m.setAt (name.splitOn ".") x)
   | ["fwd08", kind, acts, inp, outq] =>
       let ik : InKind := match inp with | "float" => .float | "same" => .quantSameQtype | _ => .quantOther
       let oq : Option Bool := match outq with | "same" => some true | "other" => some false | _ => none
